@@ -10,12 +10,16 @@
    whatever those requests are.  A request beyond the end of the script gets no answer, which the
    driver turns into a failed fetch (request timeout), error code [E_noreply].
 
-   Rows are an abstract type [R] (decoding cells is C04's business) and everything a request
-   carries apart from its paging state (opcode, statement or prepared id, bound values, page size,
-   consistency, skip-metadata flag, ...) is an abstract value [Q]: conn.go:1451-1453 builds the
-   query for the next page as `*newQry = *qry` followed by the assignment of `pageState`, so all
-   requests of one iteration are built from the same [Q] (what [Q] looks like on the wire is
-   checked by the correspondence, Corr.v).
+   Rows are an abstract type [R] (decoding cells is C04's business); what the consumer gets is a
+   row together with the result metadata [M] the Iter decoded its page with ([drow], see
+   [meta_mode] / [used_meta]: the PREPARE result's metadata for a prepared statement executed with
+   skip_metadata, the metadata sent with the page otherwise).  Everything a request carries apart
+   from its paging state (opcode, statement or prepared id, bound values, page size, consistency,
+   skip-metadata flag, ...) is an abstract value [Q]: conn.go:1451-1453 builds the query for the
+   next page as `*newQry = *qry` followed by the assignment of `pageState`, so all requests of one
+   iteration are built from the same [Q] (what [Q] looks like on the wire is checked by the
+   correspondence, Corr.v).  A retry policy is a per-page budget [n] of re-executions of the same
+   query after a failed attempt (queryExecutor.do).
 
    The Go objects are flattened as follows.  An [iter] is one *Iter (one page).  A [mach] is the
    caller's Iter variable together with the nextIter that hangs off it: [m_oncea] is nextIter.oncea
@@ -33,13 +37,25 @@ Set Implicit Arguments.
 Definition E_noreply : Z := 1.       (* no answer to a request: the fetch fails (ErrTimeoutNoResponse) *)
 Definition E_fuel : Z := -1.         (* recursion fuel exhausted: never happens, see Proofs1.scan_go_fuel *)
 
+(* which result metadata an Iter decodes its page with (conn.go:1439-1448): with skip-metadata
+   (only ever set for a prepared statement, conn.go:1394, so `info != nil` and the error branch at
+   :1444 cannot be reached) the metadata of the PREPARE result, otherwise what the rows result
+   itself carried *)
+Inductive meta_mode (M : Type) := UseServer | UsePrepared (pm : M).
+Arguments UseServer {M}.
+
 Section Paging.
-Variable R : Type.                   (* a row *)
+Variable R : Type.                   (* a row as the server sent it *)
+Variable M : Type.                   (* result metadata (columns) *)
 Variable Q : Type.                   (* a request minus its paging state *)
+
+(* a row as the consumer gets it: decoded with some metadata *)
+Definition drow : Type := (R * M)%type.
 
 (* one answer of the server *)
 Inductive reply :=
-| RPage (rows : list R) (more : bool) (st : list Z)   (* RESULT rows; [more] = has_more_pages, [st] = paging state *)
+| RPage (rows : list R) (more : bool) (st : list Z) (mt : M)
+      (* RESULT rows; [more] = has_more_pages, [st] = paging state, [mt] = the metadata the result carried *)
 | RErr (e : Z)                                        (* ERROR (or connection loss / timeout): the fetch fails with e *)
 | RVoid                                               (* RESULT void *)
 | RUnprep.                                            (* ERROR unprepared *)
@@ -47,7 +63,7 @@ Inductive reply :=
 Record request := mkReq { r_q : Q; r_ps : option (list Z) }.
 
 (* session.go:1429-1439.  [i_next] = Some (pageState of the copied query, nextIter.pos) *)
-Record iter := mkIter { i_err : option Z; i_pos : nat; i_rows : list R; i_ps : list Z; i_next : option (list Z * Z) }.
+Record iter := mkIter { i_err : option Z; i_pos : nat; i_rows : list drow; i_ps : list Z; i_next : option (list Z * Z) }.
 
 Record mach := mkMach { m_cur : iter; m_oncea : bool; m_fetched : option iter; m_srv : list reply; m_reqs : list request }.
 
@@ -59,29 +75,44 @@ Definition wire_ps (ps : list Z) : option (list Z) := match ps with [] => None |
 (* conn.go:1461-1463 *)
 Definition clamp1 (v : Z) : Z := if v <? 1 then 1 else v.
 
-(* the per-query constants: q, !disableAutoPage, and numRows -> int((1 - prefetch) * float64(numRows)) *)
+(* the per-query constants: q, !disableAutoPage, numRows -> int((1 - prefetch) * float64(numRows)),
+   the metadata mode, and the retry budget: with a retry policy that answers Retry /
+   RetryNextHost while q.Attempts() <= n, queryExecutor.do (query_executor.go:127-185) executes the
+   same *Query again after a failed attempt, at most n times; the query of each page has its own
+   attempt counter (conn.go:1454, fresh metrics).  n = 0 is the default (no retry policy). *)
 Variable q : Q.
 Variable auto : bool.
 Variable posf : nat -> Z.
+Variable mm : meta_mode M.
+Variable n : nat.
 
-(* Conn.executeQuery for the query whose pageState is [ps], against the script: the resulting Iter,
-   the rest of the script and the requests sent (more than one only after UNPREPARED,
-   conn.go:1479-1482: the same query is executed again). *)
-Fixpoint exec (ps : list Z) (srv : list reply) : iter * list reply * list request :=
+Definition used_meta (mt : M) : M := match mm with UsePrepared pm => pm | UseServer => mt end.
+
+(* session.executeQuery -> queryExecutor.do -> Conn.executeQuery for the query whose pageState is
+   [ps] and which has [left] retries left, against the script: the resulting Iter, the rest of the
+   script and the requests sent.  More than one request is sent after UNPREPARED (conn.go:1479-1482:
+   the same query is executed again inside the attempt) and after a failed attempt that the retry
+   policy retries (the same query again); a request that is never answered times out, which is a
+   failed attempt like any other. *)
+Fixpoint exec (ps : list Z) (left : nat) (srv : list reply) : iter * list reply * list request :=
   let rq := mkReq q (wire_ps ps) in
   match srv with
-  | [] => (err_iter E_noreply, [], [rq])                                  (* conn.go:1415-1418 *)
-  | RUnprep :: s => let '(it, s', l) := exec ps s in (it, s', rq :: l)    (* :1479-1482 *)
-  | RErr e :: s => (err_iter e, s, [rq])                                  (* :1483-1484 *)
+  | [] => (err_iter E_noreply, [], repeat rq (S left))                    (* conn.go:1415-1418, every retry times out too *)
+  | RUnprep :: s => let '(it, s', l) := exec ps left s in (it, s', rq :: l)    (* :1479-1482 *)
+  | RErr e :: s =>                                                        (* :1483-1484, query_executor.go:167-180 *)
+      match left with
+      | S left' => let '(it, s', l) := exec ps left' s in (it, s', rq :: l)
+      | O => (err_iter e, s, [rq])
+      end
   | RVoid :: s => (mkIter None 0 [] [] None, s, [rq])                     (* :1430-1431 *)
-  | RPage rows more st :: s =>                                            (* :1432-1466 *)
-      (mkIter None 0 rows (if more then st else [])
+  | RPage rows more st mt :: s =>                                         (* :1432-1466 *)
+      (mkIter None 0 (map (fun r => (r, used_meta mt)) rows) (if more then st else [])
               (if more && auto then Some (st, clamp1 (posf (length rows))) else None), s, [rq])
   end.
 
 (* Query.Iter(): the first page is fetched synchronously *)
 Definition open (ps : list Z) (srv : list reply) : mach :=
-  let '(it, s, l) := exec ps srv in mkMach it false None s l.
+  let '(it, s, l) := exec ps n srv in mkMach it false None s l.
 
 (* nextIter.fetch (session.go:1714-1725): the Once runs executeQuery at most once *)
 Definition fetch (m : mach) : mach :=
@@ -90,7 +121,7 @@ Definition fetch (m : mach) : mach :=
   | None =>
       match i_next (m_cur m) with
       | Some (ps, _) =>
-          let '(it, s, l) := exec ps (m_srv m) in
+          let '(it, s, l) := exec ps n (m_srv m) in
           mkMach (m_cur m) (m_oncea m) (Some it) s (m_reqs m ++ l)
       | None => m
       end
@@ -113,7 +144,7 @@ Definition bump (m : mach) : mach :=
 
 (* Iter.Scan (session.go:1587-1631) with [pre] = true, iterScanner.Next (:1476-1502) with [pre] =
    false (Next has no fetchAsync).  The result is the row (None = the call returned false). *)
-Fixpoint scan_go (pre : bool) (fuel : nat) (m : mach) : option R * mach :=
+Fixpoint scan_go (pre : bool) (fuel : nat) (m : mach) : option drow * mach :=
   match fuel with
   | O => (None, set_cur m (err_iter E_fuel))
   | S f =>
@@ -139,21 +170,21 @@ Fixpoint scan_go (pre : bool) (fuel : nat) (m : mach) : option R * mach :=
    scripted answer, or produced an error page *)
 Definition mu (m : mach) : nat := length (m_srv m) + (if m_fetched m then 1 else 0).
 
-Definition scan (m : mach) : option R * mach := scan_go true (mu m + 2) m.
-Definition next (m : mach) : option R * mach := scan_go false (mu m + 2) m.
+Definition scan (m : mach) : option drow * mach := scan_go true (mu m + 2) m.
+Definition next (m : mach) : option drow * mach := scan_go false (mu m + 2) m.
 (* helpers.go:433-452 *)
-Definition map_scan (m : mach) : option R * mach :=
+Definition map_scan (m : mach) : option drow * mach :=
   match i_err (m_cur m) with Some _ => (None, m) | None => scan m end.
 
 (* k successive calls of a consumer function: what each returned, and the state afterwards *)
-Fixpoint calls (call : mach -> option R * mach) (k : nat) (m : mach) : list (option R) * mach :=
+Fixpoint calls (call : mach -> option drow * mach) (k : nat) (m : mach) : list (option drow) * mach :=
   match k with
   | O => ([], m)
   | S k' => let '(o, m1) := call m in let '(os, m2) := calls call k' m1 in (o :: os, m2)
   end.
 
 (* `for iter.Scan(...) { append }`: call until false.  None = out of fuel (never with [rows_left]) *)
-Fixpoint drain (call : mach -> option R * mach) (fuel : nat) (m : mach) : option (list R * mach) :=
+Fixpoint drain (call : mach -> option drow * mach) (fuel : nat) (m : mach) : option (list drow * mach) :=
   match fuel with
   | O => None
   | S f =>
@@ -163,14 +194,14 @@ Fixpoint drain (call : mach -> option R * mach) (fuel : nat) (m : mach) : option
       end
   end.
 
-Definition reply_rows (r : reply) : nat := match r with RPage rows _ _ => length rows | _ => 0%nat end.
+Definition reply_rows (r : reply) : nat := match r with RPage rows _ _ _ => length rows | _ => 0%nat end.
 Definition script_rows (s : list reply) : nat := fold_right (fun r n => (reply_rows r + n)%nat) 0%nat s.
 Definition rows_left (m : mach) : nat :=
   (length (i_rows (m_cur m)) + match m_fetched m with Some it => length (i_rows it) | None => 0 end
    + script_rows (m_srv m))%nat.
 
 (* helpers.go:376-393: (rows, nil) or (nil, err) *)
-Definition slice_map (m : mach) : option (list R * option Z * mach) :=
+Definition slice_map (m : mach) : option (list drow * option Z * mach) :=
   match i_err (m_cur m) with
   | Some e => Some ([], Some e, m)
   | None =>
@@ -187,17 +218,40 @@ Definition page_state (m : mach) : list Z := i_ps (m_cur m).
 (* ---- schedules: the consumer's calls interleaved with the asynchronous prefetch ------------- *)
 Inductive label := LScan | LMapScan | LAsync.
 
-Definition step (m : mach) (l : label) : list (option R) * mach :=
+Definition step (m : mach) (l : label) : list (option drow) * mach :=
   match l with
   | LScan => let '(o, m') := scan m in ([o], m')
   | LMapScan => let '(o, m') := map_scan m in ([o], m')
   | LAsync => ([], async m)
   end.
 
-Fixpoint sched (m : mach) (ls : list label) : list (option R) * mach :=
+Fixpoint sched (m : mach) (ls : list label) : list (option drow) * mach :=
   match ls with
   | [] => ([], m)
   | l :: t => let '(o, m1) := step m l in let '(os, m2) := sched m1 t in (o ++ os, m2)
+  end.
+
+(* Iter.SliceMap while the prefetch goroutine runs: [fires] says, for each successive Scan call of
+   the loop, whether the spawned prefetch gets to run just before it (missing entries = no) *)
+Fixpoint drain_sched (fuel : nat) (m : mach) (fires : list bool) : option (list drow * mach) :=
+  match fuel with
+  | O => None
+  | S f =>
+      let m0 := match fires with true :: _ => async m | _ => m end in
+      match scan m0 with
+      | (Some r, m1) => match drain_sched f m1 (tl fires) with Some (l, m2) => Some (r :: l, m2) | None => None end
+      | (None, m1) => Some ([], m1)
+      end
+  end.
+
+Definition slice_map_sched (m : mach) (fires : list bool) : option (list drow * option Z * mach) :=
+  match i_err (m_cur m) with
+  | Some e => Some ([], Some e, m)
+  | None =>
+      match drain_sched (S (rows_left m)) m fires with
+      | Some (l, m') => match i_err (m_cur m') with Some e => Some ([], Some e, m') | None => Some (l, None, m') end
+      | None => None
+      end
   end.
 
 End Paging.
